@@ -29,6 +29,7 @@ import Driver.ChainAccept
 import Driver.PoolAccept
 import Driver.VerifyBatches
 import Driver.TarFS
+import Driver.Mtree
 import Driver.ProtoSession
 import Driver.MountHandleAccept
 import Driver.RemoteStores
@@ -663,6 +664,7 @@ def runLine (l : String) : String :=
     | "bst" => cmdBst a
     | "s3.store" | "s3.get" | "s3.has" | "sftp.has" | "sftp.store" | "sftp.get" => (Remote.run cmd a).getD "bad-op"
     | "tarfs.mode" | "tarfs.read" | "tarfs.tar" | "tarfs.write" => (TarFSCmd.run cmd a).getD "bad-op"
+    | "mtree.line" | "mtree.parse" | "mtree.name" => (MtreeCmd.run cmd a).getD "bad-op"
     | _ => "bad-op"
 
 end Driver
